@@ -250,13 +250,26 @@ func refEq(a, b *model) bool {
 	panic("refEq: kind")
 }
 
-// orderedKind reports whether the property lists the kind as an ordered type.
+// orderedKind reports whether the kind is an ordered type: the six the property lists, and the
+// two time types of its quantifier, which declare themselves starlark.TotallyOrdered (lib/time:
+// "Cmp implements comparison of two Duration values. required by starlark.TotallyOrdered interface";
+// value.go: the values of a TotallyOrdered type "form a total order").
 func orderedKind(k kind) bool {
 	switch k {
-	case kBool, kNum, kStr, kBytes, kTuple, kList:
+	case kBool, kNum, kStr, kBytes, kTuple, kList, kTime, kDur:
 		return true
 	}
 	return false
+}
+
+func cmp64(a, b int64) int {
+	switch {
+	case a < b:
+		return -1
+	case a > b:
+		return 1
+	}
+	return 0
 }
 
 // refCmp is the expected three-way order of a and b. ok is false when the specification gives
@@ -273,6 +286,13 @@ func refCmp(a, b *model) (c int, ok bool) {
 		return numCmp(a, b), true
 	case kStr, kBytes:
 		return strings.Compare(a.s, b.s), true // bytewise
+	case kDur: // the signed number of nanoseconds
+		return cmp64(a.nsec, b.nsec), true
+	case kTime: // the instant: whole seconds since the epoch (floor), then nanoseconds within the second
+		if c := cmp64(a.sec, b.sec); c != 0 {
+			return c, true
+		}
+		return cmp64(a.nsec, b.nsec), true
 	case kTuple, kList:
 		for i := 0; i < len(a.elems) && i < len(b.elems); i++ {
 			if !refEq(a.elems[i], b.elems[i]) {
